@@ -46,12 +46,8 @@ pub open spec fn exp_room(e: int, d: int) -> bool { e + d - 1 <= isize::MAX }
 pub open spec fn pos_room(pos: int) -> bool { pos * 64 <= usize::MAX }
 
 // ---- TRUSTED stubs (float/src/utils.rs, float/src/repr.rs); each contract was read off the real function
-/// utils::digit_len: "Returns the integer k such that B^(k-1) <= value < B^k. If value is 0, then k = 0"
-#[verifier::external_body]
-pub fn digit_len<const B: Word>(value: &IBig) -> (r: usize)
-    requires B >= 2
-    ensures r == ndigits(B as int, value.v())
-{ unimplemented!() }
+// utils::digit_len: PROVED in unit float_digit_utils; contract from its annotated copy (one source of truth)
+//@@ SIG float/utils3/digit_len.rs
 // `Repr::digits_ub` (the fast f32 over-estimate of the digit count; float/src/repr.rs): NOT used by the unchanged
 // functions under contract; present so that a changed function calling it is judged by its contract. Assumed: an upper
 // bound of the digit count; 0 for a zero significand (explicit early return in the real code); and the generous cap
@@ -75,22 +71,9 @@ impl<const BASE: Word> Repr<BASE> {
     { unimplemented!() }
 }
 
-/// utils::split_digits: v == hi*B^pos + lo, |lo| < B^pos, "the sign is applied to both parts".
-/// `pos_room(pos)`: for a power-of-two base other than 2 the bit position `pos * log2(B)` is computed in usize
-/// (utils.rs:141 / :117): with it overflowing, `split_digits::<16>(0x123, 1 << 62)` panics (debug) or returns
-/// (0x123, 0) instead of (0, 0x123) (release).
-#[verifier::external_body]
-pub fn split_digits<const B: Word>(value: IBig, pos: usize) -> (r: (IBig, IBig))
-    requires B >= 2,
-        pos_room(pos as int),        // resource limit: exponent overflow is a documented panic (C16), not modelled
-    ensures is_trunc_divrem(value.v(), ipow(B as int, pos as nat), r.0.v(), r.1.v())
-{ unimplemented!() }
-#[verifier::external_body]
-pub fn split_digits_ref<const B: Word>(value: &IBig, pos: usize) -> (r: (IBig, IBig))
-    requires B >= 2,
-        pos_room(pos as int),        // resource limit: exponent overflow is a documented panic (C16), not modelled
-    ensures is_trunc_divrem(value.v(), ipow(B as int, pos as nat), r.0.v(), r.1.v())
-{ unimplemented!() }
+// utils::split_digits / split_digits_ref: PROVED in unit float_split (all three base arms); contracts from the annotated copies
+//@@ SIG float/utils2/split_digits.rs
+//@@ SIG float/utils2/split_digits_ref.rs
 impl<const B: Word> Repr<B> {
     /// Repr::new = struct literal + normalize(): same value, zero becomes (0, 0), result normalized.
     /// `exp_room`: normalize() adds the number of stripped trailing zero digits to the exponent in isize
